@@ -258,8 +258,8 @@ def real_run(prg, inputs):
 
     orig_repl = mma._create_replacement  # pylint: disable=protected-access
 
-    def wrap_repl(minmaxpred, minimize, terms, oldmax, rest_cond, function):
-        r = orig_repl(minmaxpred, minimize, terms, oldmax, rest_cond, function)
+    def wrap_repl(minmaxpred, minimize, terms, oldmax, rest_cond, function, *rest, **kw):
+        r = orig_repl(minmaxpred, minimize, terms, oldmax, rest_cond, function, *rest, **kw)
         if r and r[0].ast_type == ASTType.Minimize:
             counts["stage 2: objectives replaced"] += 1
         else:
